@@ -533,8 +533,10 @@ fn worker_main<E: Engine>(args: &Args, i: u64, n: u64) -> i32 {
         }
     };
 
+    // sweeps get at most half of the wall-clock budget, the random runs the rest
+    let sweep_budget = budget / 2;
     for u in units {
-        if start.elapsed() > budget {
+        if start.elapsed() > sweep_budget {
             break;
         }
         let Unit::Sweep(seed) = u;
@@ -559,7 +561,7 @@ fn worker_main<E: Engine>(args: &Args, i: u64, n: u64) -> i32 {
         let faults = E::sweep_faults(prop, &cfg);
         'sweep: for p in 0..=base.len() {
             for f in &faults {
-                if start.elapsed() > budget {
+                if start.elapsed() > sweep_budget {
                     break 'sweep;
                 }
                 let mut list = base[..p].to_vec();
